@@ -2,14 +2,15 @@
 
 PROPERTIES = {
     "C13": dict(
-        modules=["interrupts", "veneer_state"],
+        modules=["interrupts", "veneer_state", "dyn_requirements", "dyn_compile"],
         level="proof",
         claim="runTryInterrupt judged per resumption by trace rules written from the documented semantics (first enabled-or-running handler in tuple order "
         "else the body; same-iterator resumption; FINISHED returns to selection, other conclusions end the statement; invariants after every yield; "
         "conditions inside a guard); compiler reverses the clause order and keeps conditions/handlers aligned; guard order in _checkAllPreconditions "
-        "and Behavior._start; executeInGuard restores evaluatingGuard on every exit",
+        "and Behavior._start; executeInGuard restores evaluatingGuard on every exit; scenarios: guards checked exactly once over DynamicScenario._prepare + _start (delayed for the top-level scenario), before the setup / compose "
+        "blocks run, a failed start leaves nothing running; compiler: `abort` = ABORT conclusion only inside a handler, guard checkers raise the violation of their kind with the guard's line iff false or rejected (contracts/dyn_compile.py; generateInvocation is inlined in the C12 visitor contracts)",
         note="blocks and conditions are scripted objects exploring every behaviour up to the stated bound",
         assumptions=["L-iterators: generator objects follow the send/StopIteration protocol"],
-        not_reached=["WHEN an abandoned block's generator is finalised (reference counting / garbage collector) is outside the encoding; WHAT happens when it is closed is covered (Behavior._invokeInner, close modelled at the suspension point)", "compiler: visit_Abort, makeGuardCheckers, generateInvocation", "DynamicScenario._prepare/_start guard checks"],
+        not_reached=["WHEN an abandoned block's generator is finalised (reference counting / garbage collector) is outside the encoding; WHAT happens when it is closed is covered (Behavior._invokeInner, close modelled at the suspension point)", "compiler: separatePreconditionsAndInvariants / makeBehaviorLikeDef / visit_ScenarioDef (where the guard checkers are placed in the generated class; exercised by the replay driver of makeGuardCheckers only)", "a run-time `require` executed inside a guard raises RejectSimulationException, which the generated checkers do not convert into a guard violation (only RejectionException is): recorded as an observation, not judged"],
     )
 }
